@@ -33,12 +33,18 @@ class V1:
         """the crate-local fn(&str) that the text entry point hands the window to; the byte entry point must reach it too
         (directly, or by delegating to the text entry point)"""
         def local_callees(p):
+            # callees of the function and of the closures defined inside it
             out = set()
-            fn = self.ctx.fx.fns[p]
-            for b in fn['blocks']:
-                t = b['term']
-                if t['k'] == 'call' and 'callee' in t and t['callee'].get('rlocal') and t['callee'].get('rpath') in self.ctx.fx.fns:
-                    out.add(t['callee']['rpath'])
+            bodies = [f for q, f in self.ctx.fx.fns.items() if q == p or q.startswith(p + '::{closure')]
+            for fn in bodies:
+                for b in fn['blocks']:
+                    t = b['term']
+                    if t['k'] == 'call' and 'callee' in t and t['callee'].get('rlocal') and t['callee'].get('rpath') in self.ctx.fx.fns:
+                        out.add(t['callee']['rpath'])
+                    for a in (t.get('args') or []) if t['k'] == 'call' else []:
+                        c = a.get('const') if isinstance(a, dict) else None
+                        if c and c.get('fn') in self.ctx.fx.fns:
+                            out.add(c['fn'])          # a crate-local fn item passed as a function value
             return out
 
         def is_fp(path):
